@@ -11,7 +11,7 @@
     - [path_append base [c1..cn]] : base/c1/../cn - "inside base at depth n";
     - [cv a b]         : a and b differ only in the case of ASCII letters. *)
 From Coq Require Import List NArith Bool.
-From V Require Import Common.Bytes Names.Path Names.Model Names.PathProofs Names.Proofs Names.Confine Names.Fold Names.Existing Names.Main.
+From V Require Import Common.Bytes Names.Path Names.Model Names.PathProofs Names.Proofs Names.Confine Names.Fold Names.Fold2 Names.Existing Names.Main.
 Import ListNotations.
 Open Scope N_scope.
 
@@ -174,6 +174,18 @@ Theorem C13_roundtrip_relpath : forall h n m t,
 Proof. exact m_parse_from_filepath_roundtrip. Qed.
 Print Assumptions C13_roundtrip_relpath.
 
+(** the extended names of the registry client (scheme://name@digest): accepted means supported scheme and a fully
+    qualified name (to which the confinement and round-trip theorems apply) or a digest alone *)
+Theorem C13_extended_name : forall mask s scheme n d,
+  r_parse_name_extended mask s = Ok (scheme, n, d) ->
+  r_supported_scheme scheme = true /\ ((n = n_empty /\ d <> None) \/ n_is_fq n = true).
+Proof. exact main_C13_extended_name. Qed.
+Print Assumptions C13_extended_name.
+
+Example C13_extended_name_nonvacuous :
+  exists n, r_parse_name_extended n_default_mask [104; 116; 116; 112; 58; 47; 47; 104; 47; 110; 47; 109] = Ok (s_http, n, None).   (* "http://h/n/m" *)
+Proof. eexists. vm_compute. reflexivity. Qed.
+
 (** names.Parse is total: its loop never exhausts the fuel [S (length s)] of the model *)
 Theorem C13_names_parse_total : forall s acc, n_parse_loop (S (length s)) s acc <> None.
 Proof. exact main_C13_names_parse_total. Qed.
@@ -230,6 +242,14 @@ Theorem C13_casefold_parse : forall s1 s2,
               n_is_valid (n_parse s1) = n_is_valid (n_parse s2).
 Proof. exact cv_n_parse. Qed.
 Print Assumptions C13_casefold_parse.
+
+(** model.ParseName on two strings that differ only in letter case: the names are case variants of each other, valid
+    alike, and EqualFold when valid *)
+Theorem C13_casefold_parse_model : forall s1 s2,
+  cv s1 s2 -> cv_m (m_parse s1) (m_parse s2) /\ m_is_valid (m_parse s1) = m_is_valid (m_parse s2) /\
+              (m_is_valid (m_parse s2) = true -> m_equal_fold (m_parse s1) (m_parse s2) = true).
+Proof. intros s1 s2 H. split; [exact (m_parse_cv s1 s2 H)|exact (m_parse_cv_valid s1 s2 H)]. Qed.
+Print Assumptions C13_casefold_parse_model.
 
 (** DisplayShortest (used to hand a name to PullModel/PushModel) prints a string that parses back to a fully
     qualified case variant of the name with the same model and tag *)
